@@ -341,17 +341,27 @@ func copyDenseIter(dst, src DenseTensor, diter, siter Iterator) (int, error) {
 		siter = FlatIteratorFromDense(src)
 	}
 
-	// if it's a masked tensor, we copy the mask as well
+	// if it's a masked tensor, we copy the mask as well. The mask moves with the elements: position by position, the
+	// way the data is copied below
 	if ms, ok := src.(MaskedTensor); ok && ms.IsMasked() {
 		if md, ok := dst.(MaskedTensor); ok {
 			dmask := md.Mask()
 			smask := ms.Mask()
-			if cap(dmask) < len(smask) {
-				dmask = make([]bool, len(smask))
+			if len(dmask) != dst.DataSize() {
+				dmask = make([]bool, dst.DataSize())
 				copy(dmask, md.Mask())
 				md.SetMask(dmask)
 			}
-			copy(dmask, smask)
+			for {
+				i, derr := diter.Next()
+				j, serr := siter.Next()
+				if derr != nil || serr != nil {
+					break
+				}
+				dmask[i] = smask[j]
+			}
+			diter.Reset()
+			siter.Reset()
 		}
 	}
 	return storage.CopyIter(dst.rtype(), dst.hdr(), src.hdr(), diter, siter), nil
